@@ -27,9 +27,18 @@ def h30(b: bytes) -> int:
     return int.from_bytes(hashlib.sha1(b).digest()[:4], "big") & (2 ** 30 - 1)
 
 
-def fingerprint() -> int:
+def state_bytes() -> bytes:
     st = np.random.get_state()
-    return h30(st[1].tobytes() + bytes(str((st[2], st[3], st[4])), "ascii") + bytes(str(pyrandom.getstate()[1][-1]), "ascii"))
+    return st[1].tobytes() + bytes(str((st[2], st[3], st[4])), "ascii") + bytes(str(pyrandom.getstate()[1][-1]), "ascii")
+
+
+def fingerprint() -> int:
+    return h30(state_bytes())
+
+
+def fingerprint_wide():
+    """60 bits (two limbs): for passes with tens of thousands of samples, where 30 bits would collide by chance"""
+    return h60(state_bytes())
 
 
 class RecordingDeque(deque):
@@ -125,7 +134,8 @@ def install():
 
     def wrap_sim(orig):
         def sim(self, *a, **k):
-            fp0 = fingerprint()
+            sb0 = state_bytes()
+            fp0 = h30(sb0)
             STATE["pops"] = []
             p = orig(self, *a, **k)
             fp1 = fingerprint()
@@ -133,7 +143,7 @@ def install():
             vals = np.ascontiguousarray(np.asarray(p.jump_path, dtype=float)).tobytes() + \
                 np.ascontiguousarray(np.asarray(p.diffusion_path, dtype=float)).tobytes()
             tag = {"pid": os.getpid(), "pseq": STATE["pseq"], "fp0": fp0, "fp1": fp1, "rows": list(STATE["pops"]),
-                   "vh": h30(vals), "vh2": h60(vals), "seeds": list(STATE["seeds"])}
+                   "vh": h30(vals), "vh2": h60(vals), "fp0w": h60(sb0), "seeds": list(STATE["seeds"])}
             STATE["seeds"] = []
             t = TaggedPath(p.jump_times, p.diffusion_path, p.jump_path)
             t.tag = tag
@@ -299,7 +309,7 @@ def main():
             ev += [x for x in e if x["e"] != "Sample"]
             ev.append({"e": "Bulk", "n": len(smp), "want": n, "vh": [x["vh2"] for x in smp],
                        "rows": [r for x in smp for r in x["rows"]], "nrows": sum(len(x["rows"]) for x in smp),
-                       "fp0": [x["fp0"] for x in smp if x["fp0"] != x["fp1"]],
+                       "fp0": [x["fp0w"] for x in smp if x["fp0"] != x["fp1"]],
                        "seeds": [sd for x in smp for sd in x["seeds"]]})
         except Exception as ex:
             ev.append({"e": "Raise", "what": type(ex).__name__ + ": " + str(ex)[:100]})
